@@ -57,7 +57,7 @@ def check(run):
     run.trust('CPython ast', 'checker interpreter', 'sa/bocspec.py encoder (boc.tlb / boc.cpp)')
     small_scope(run, prog, w, 5 if thorough else 3)
     dags = bocrun.dags(False)
-    pick = ['single-empty', 'single-13bits', 'chain3', 'diamond', 'shared-later', 'four-refs', 'merkle-proof', 'ordinary-over-pruned', 'payload256']
+    pick = ['single-empty', 'single-13bits', 'chain3', 'diamond', 'shared-later', 'four-refs', 'merkle-proof', 'ordinary-over-pruned', 'payload256', 'pruned-masks-2456', 'pruned-masks-37']
     # ---- D1 option space
     n = 0
     for name in pick:
